@@ -301,3 +301,737 @@ Proof.
     repeat split; try assumption.
     left. split; [exact Es|exact Hc].
 Qed.
+
+(** ** strconv.ParseUint(s, 10, 16) *)
+
+Definition dstep (a c : N) : N := a * 10 + (c - 48).
+
+Lemma dec_value_fold d : dec_value d = fold_left dstep d 0.
+Proof. reflexivity. Qed.
+
+Lemma fold_dstep_mono s : forall n, n <= fold_left dstep s n.
+Proof.
+  induction s as [|c t IH]; intro n; cbn [fold_left]; [lia|].
+  specialize (IH (dstep n c)). unfold dstep in *. lia.
+Qed.
+
+Lemma pu_loop_spec s : forall n, n <= 65535 ->
+  pu_loop n s =
+  if forallb is_digit s && (fold_left dstep s n <=? 65535) then Some (fold_left dstep s n) else None.
+Proof.
+  induction s as [|c t IH]; intros n Hn; cbn [pu_loop forallb fold_left].
+  - cbn [andb]. destruct (N.leb_spec n 65535); [reflexivity|lia].
+  - destruct (is_digit c) eqn:Hd; cbn [andb]; [|reflexivity].
+    assert (Hc : c - 48 <= 9) by (unfold is_digit in Hd; lia).
+    destruct (N.leb_spec pu_cutoff n) as [Hcut|_]; [unfold pu_cutoff in Hcut; lia|].
+    assert (Em : (n * 10 + (c - 48)) mod two64 = n * 10 + (c - 48)).
+    { apply N.mod_small. unfold two64. lia. }
+    rewrite Em. fold (dstep n c).
+    destruct (N.ltb_spec (dstep n c) (n * 10)) as [Hw|_]; [unfold dstep in Hw; lia|].
+    cbn [orb].
+    destruct (N.ltb_spec 65535 (dstep n c)) as [Hbig|Hok].
+    + pose proof (fold_dstep_mono t (dstep n c)) as Hm.
+      destruct (N.leb_spec (fold_left dstep t (dstep n c)) 65535); [lia|]. rewrite andb_false_r. reflexivity.
+    + apply IH. exact Hok.
+Qed.
+
+Lemma parse_uint16_spec s :
+  parse_uint16 s =
+  if negb (is_nil s) && forallb is_digit s && (dec_value s <=? 65535) then Some (dec_value s) else None.
+Proof.
+  destruct s as [|c t]; [reflexivity|].
+  unfold parse_uint16. rewrite pu_loop_spec by lia. reflexivity.
+Qed.
+
+(** digits contain none of ':' '[' ']' *)
+Lemma digits_nocolon d : forallb is_digit d = true -> nocolon d.
+Proof. apply class_excludes. reflexivity. Qed.
+Lemma digits_nobr d : forallb is_digit d = true -> nobr d.
+Proof. intro H. split; (eapply class_excludes; [|exact H]); reflexivity. Qed.
+
+(** ** pkg/upstream/utils.go *)
+
+Lemma trim_bracketed s : trim_v6_brackets (c_lbr :: s ++ [c_rbr]) = s.
+Proof.
+  unfold trim_v6_brackets.
+  assert (L : length (c_lbr :: s ++ [c_rbr]) = S (S (length s))) by (simpl; rewrite app_length; simpl; lia).
+  rewrite L. cbn [Nat.ltb Nat.leb nth].
+  replace (S (S (length s)) - 1)%nat with (S (length s)) by lia.
+  cbn [nth]. rewrite app_nth2 by lia. rewrite Nat.sub_diag. cbn [nth].
+  rewrite !N.eqb_refl. cbn [andb]. unfold slice.
+  change (skipn 1 (c_lbr :: s ++ [c_rbr])) with (s ++ [c_rbr]).
+  replace (S (length s) - 1)%nat with (length s) by lia.
+  apply firstn_len_app.
+Qed.
+
+Lemma trim_not_open s : (nth 0 s 0 =? c_lbr) = false -> trim_v6_brackets s = s.
+Proof.
+  intro H. unfold trim_v6_brackets. rewrite H. cbn [andb].
+  destruct (length s <? 2)%nat; reflexivity.
+Qed.
+
+Lemma trim_not_closed s : (nth (length s - 1) s 0 =? c_rbr) = false -> trim_v6_brackets s = s.
+Proof.
+  intro H. unfold trim_v6_brackets. rewrite H, andb_false_r.
+  destruct (length s <? 2)%nat; reflexivity.
+Qed.
+
+(** the old code, kept as a refutation: s[1:len(s)-2] *)
+Definition trim_v6_brackets_old (s : str) : str :=
+  if (length s <? 2)%nat then s
+  else if (nth 0 s 0 =? c_lbr) && (nth (length s - 1) s 0 =? c_rbr)
+       then slice 1 (length s - 2) s
+       else s.
+
+Lemma brackets_off_by_one :
+  trim_v6_brackets_old (lit "[::1]") = lit "::" /\ trim_v6_brackets (lit "[::1]") = lit "::1".
+Proof. split; reflexivity. Qed.
+
+Lemma last_not_rbr (a t : str) :
+  t <> [] -> has c_rbr t = false ->
+  (nth (length (a ++ t) - 1) (a ++ t) 0 =? c_rbr) = false.
+Proof.
+  intros Hne Ht. destruct (exists_last Hne) as [l' [x ->]].
+  rewrite app_assoc, app_length. cbn [length].
+  replace (length (a ++ l') + 1 - 1)%nat with (length (a ++ l')) by lia.
+  rewrite app_nth2 by lia. rewrite Nat.sub_diag. cbn [nth].
+  rewrite has_app, has_cons in Ht. apply orb_false_iff in Ht as [_ Ht].
+  apply orb_false_iff in Ht as [Ht _]. rewrite N.eqb_sym. exact Ht.
+Qed.
+
+Lemma last_of_app_digit (a d : str) :
+  d <> [] -> forallb is_digit d = true ->
+  (nth (length (a ++ c_colon :: d) - 1) (a ++ c_colon :: d) 0 =? c_rbr) = false.
+Proof.
+  intros Hne Hd.
+  assert (Hlast : exists d' x, d = d' ++ [x]).
+  { destruct (exists_last Hne) as [d' [x E]]. eauto. }
+  destruct Hlast as [d' [x ->]].
+  rewrite forallb_app in Hd. apply andb_true_iff in Hd as [_ Hx]. cbn [forallb] in Hx.
+  rewrite andb_true_r in Hx.
+  replace (a ++ c_colon :: d' ++ [x]) with ((a ++ c_colon :: d') ++ [x]) by (rewrite <- app_assoc; reflexivity).
+  rewrite app_length. cbn [length].
+  replace (length (a ++ c_colon :: d') + 1 - 1)%nat with (length (a ++ c_colon :: d')) by lia.
+  rewrite app_nth2 by lia. rewrite Nat.sub_diag. cbn [nth].
+  unfold is_digit in Hx. unfold c_rbr. lia.
+Qed.
+
+(** ** Endpoints of the grammar *)
+
+Lemma name_nocolon h : forallb name_char h = true -> nocolon h.
+Proof. apply class_excludes. reflexivity. Qed.
+Lemma name_nobr h : forallb name_char h = true -> nobr h.
+Proof. intro H. split; (eapply class_excludes; [|exact H]); reflexivity. Qed.
+Lemma name_noslash h : forallb name_char h = true -> has c_slash h = false.
+Proof. apply class_excludes. reflexivity. Qed.
+Lemma inner_nobr v : forallb inner_char v = true -> nobr v.
+Proof. intro H. split; (eapply class_excludes; [|exact H]); reflexivity. Qed.
+Lemma inner_noslash v : forallb inner_char v = true -> has c_slash v = false.
+Proof. apply class_excludes. reflexivity. Qed.
+
+Lemma first_not_lbr (s t : str) :
+  has c_lbr s = false -> (nth 0 s 0 =? c_lbr) = false.
+Proof.
+  destruct s as [|x s]; [reflexivity|]. rewrite has_cons. cbn [nth].
+  intro H. apply orb_false_iff in H as [H _]. rewrite N.eqb_sym. exact H.
+Qed.
+
+Lemma wf_port_facts d :
+  wf_port d = true ->
+  d <> [] /\ forallb is_digit d = true /\ 1 <= dec_value d <= 65535 /\ parse_uint16 d = Some (dec_value d).
+Proof.
+  unfold wf_port. intro H.
+  apply andb_true_iff in H as [H H4]. apply andb_true_iff in H as [H H3]. apply andb_true_iff in H as [H1 H2].
+  assert (Hne : d <> []) by (destruct d; [discriminate|congruence]).
+  repeat split; try assumption; try lia.
+  rewrite parse_uint16_spec, H1, H2, H4. reflexivity.
+Qed.
+
+(** value of the optional port, 0 when absent *)
+Definition port_val (p : option str) : N := match p with Some d => dec_value d | None => 0 end.
+
+(** trySplitHostPort on every well-formed form except "[v6]" (which only
+    occurs as URL host and is trimmed first) *)
+Lemma try_split_ep e :
+  wf_ep e = true -> dial_ok_ep e = true ->
+  try_split_host_port (render_ep e) = Some (ep_host e, port_val (ep_port e)).
+Proof.
+  destruct e as [h p|v br p]; cbn [wf_ep dial_ok_ep render_ep ep_host ep_port]; intros Hwf Hok.
+  - apply andb_true_iff in Hwf as [Hwf Hp]. apply andb_true_iff in Hwf as [Hne Hh].
+    unfold try_split_host_port. destruct p as [d|]; cbn [render_port wf_port_opt port_val] in *.
+    + destruct (wf_port_facts _ Hp) as [_ [Hd [_ Hpu]]].
+      rewrite (split_name_port h d (name_nocolon _ Hh) (name_nobr _ Hh) (digits_nocolon _ Hd) (digits_nobr _ Hd)).
+      rewrite Hpu. reflexivity.
+    + rewrite app_nil_r. rewrite (split_no_colon h (name_nocolon _ Hh)). reflexivity.
+  - apply andb_true_iff in Hwf as [Hwf Hbr]. apply andb_true_iff in Hwf as [Hwf Hp].
+    apply andb_true_iff in Hwf as [Hv Hc]. apply Nat.leb_le in Hc.
+    unfold try_split_host_port. destruct br.
+    + destruct p as [d|]; [|discriminate]. cbn [render_port wf_port_opt port_val app] in *.
+      destruct (wf_port_facts _ Hp) as [_ [Hd [_ Hpu]]].
+      rewrite <- app_assoc. cbn [app].
+      rewrite (split_bracketed v d (inner_nobr _ Hv) (digits_nocolon _ Hd) (digits_nobr _ Hd)).
+      rewrite Hpu. reflexivity.
+    + destruct p as [d|]; [discriminate|]. cbn [render_port port_val]. rewrite app_nil_r.
+      rewrite (split_many_colons v); [reflexivity| |exact Hc].
+      apply (first_not_lbr v v). apply (inner_nobr _ Hv).
+Qed.
+
+(** what NewUpstream feeds to the helpers for a URL endpoint: the trimmed
+    host denotes the same endpoint, "[v6]" included *)
+Lemma try_split_trim_ep e :
+  wf_ep e = true ->
+  try_split_host_port (trim_v6_brackets (render_ep e)) = Some (ep_host e, port_val (ep_port e)).
+Proof.
+  intro Hwf. destruct (dial_ok_ep e) eqn:Hok.
+  - (* trimming changes nothing *)
+    assert (Et : trim_v6_brackets (render_ep e) = render_ep e).
+    { destruct e as [h p|v br p]; cbn [wf_ep render_ep dial_ok_ep] in *.
+      - apply andb_true_iff in Hwf as [Hwf _]. apply andb_true_iff in Hwf as [Hne Hh].
+        apply trim_not_open. destruct h as [|x h]; [discriminate|].
+        cbn [app nth]. pose proof (name_nobr _ Hh) as [Hl _]. rewrite has_cons in Hl.
+        rewrite N.eqb_sym. destruct (c_lbr =? x); [discriminate|reflexivity].
+      - apply andb_true_iff in Hwf as [Hwf Hbr]. apply andb_true_iff in Hwf as [Hwf Hp].
+        apply andb_true_iff in Hwf as [Hv Hc].
+        destruct br.
+        + destruct p as [d|]; [|discriminate]. cbn [render_port wf_port_opt] in *.
+          destruct (wf_port_facts _ Hp) as [Hne [Hd _]].
+          apply trim_not_closed. apply last_of_app_digit; assumption.
+        + destruct p; [discriminate|]. cbn [render_port]. rewrite app_nil_r.
+          apply trim_not_open. apply (first_not_lbr v v), (inner_nobr _ Hv). }
+    rewrite Et. apply try_split_ep; assumption.
+  - destruct e as [h p|v br p]; [discriminate|]. destruct br; [|discriminate]. destruct p; [discriminate|].
+    cbn [wf_ep render_ep render_port ep_host ep_port port_val] in *. rewrite app_nil_r.
+    apply andb_true_iff in Hwf as [Hwf _]. apply andb_true_iff in Hwf as [Hwf _].
+    apply andb_true_iff in Hwf as [Hv Hc]. apply Nat.leb_le in Hc.
+    cbn [app]. rewrite trim_bracketed.
+    unfold try_split_host_port. rewrite (split_many_colons v); [reflexivity| |exact Hc].
+    apply (first_not_lbr v v), (inner_nobr _ Hv).
+Qed.
+
+Lemma try_remove_trim_ep e :
+  wf_ep e = true -> try_remove_port (trim_v6_brackets (render_ep e)) = ep_host e.
+Proof.
+  intro Hwf. pose proof (try_split_trim_ep e Hwf) as H.
+  unfold try_split_host_port, try_remove_port in *.
+  destruct (split_host_port (trim_v6_brackets (render_ep e))) as [h ps|err].
+  - destruct (parse_uint16 ps); [|discriminate]. injection H as -> _. reflexivity.
+  - injection H as -> _. reflexivity.
+Qed.
+
+(** ** parseDialAddr *)
+
+Definition eff_addr (url_host dial_addr : str) : str :=
+  if (0 <? length dial_addr)%nat then dial_addr else url_host.
+
+Lemma render_ep_nonempty e : wf_ep e = true -> (0 <? length (render_ep e))%nat = true.
+Proof.
+  destruct e as [h p|v br p]; cbn [wf_ep render_ep]; intro H.
+  - apply andb_true_iff in H as [H _]. apply andb_true_iff in H as [H _].
+    destruct h; [discriminate|]. reflexivity.
+  - apply andb_true_iff in H as [H _]. apply andb_true_iff in H as [H _]. apply andb_true_iff in H as [_ H].
+    apply Nat.leb_le in H. destruct br; [reflexivity|].
+    destruct v; [cbn in H; lia|reflexivity].
+Qed.
+
+Lemma port_val_or p def :
+  wf_port_opt p = true -> (if port_val p =? 0 then def else port_val p) = port_or p def.
+Proof.
+  destruct p as [d|]; cbn [wf_port_opt port_val port_or]; intro H; [|reflexivity].
+  destruct (wf_port_facts _ H) as [_ [_ [Hr _]]].
+  destruct (N.eqb_spec (dec_value d) 0); [lia|reflexivity].
+Qed.
+
+Lemma wf_ep_port e : wf_ep e = true -> wf_port_opt (ep_port e) = true.
+Proof.
+  destruct e as [h p|v br p]; cbn [wf_ep ep_port]; intro H.
+  - apply andb_true_iff in H as [_ H]. exact H.
+  - apply andb_true_iff in H as [H _]. apply andb_true_iff in H as [_ H]. exact H.
+Qed.
+
+Definition dial_wf (dial : option ep) : bool :=
+  match dial with Some d => wf_ep d && dial_ok_ep d | None => true end.
+Definition render_dial (dial : option ep) : str :=
+  match dial with Some d => render_ep d | None => [] end.
+Definition eff_ep (e : ep) (dial : option ep) : ep :=
+  match dial with Some d => d | None => e end.
+
+(** the (host, port) pair NewUpstream computes for a URL endpoint and an
+    optional dial_addr endpoint *)
+Lemma parse_dial_ep e dial def :
+  wf_ep e = true -> dial_wf dial = true ->
+  parse_dial_addr (trim_v6_brackets (render_ep e)) (render_dial dial) def =
+  Some (ep_host (eff_ep e dial), port_or (ep_port (eff_ep e dial)) def).
+Proof.
+  intros He Hd. unfold parse_dial_addr.
+  destruct dial as [d|]; cbn [dial_wf render_dial eff_ep] in *.
+  - apply andb_true_iff in Hd as [Hw Hok].
+    rewrite (render_ep_nonempty d Hw), (try_split_ep d Hw Hok).
+    rewrite (port_val_or _ def (wf_ep_port d Hw)). reflexivity.
+  - cbn [length Nat.ltb Nat.leb]. rewrite (try_split_trim_ep e He).
+    rewrite (port_val_or _ def (wf_ep_port e He)). reflexivity.
+Qed.
+
+(** an accepted address denotes exactly what it says *)
+Lemma parse_dial_addr_sound u d def h p :
+  parse_dial_addr u d def = Some (h, p) ->
+  let a := eff_addr u d in
+  (exists err, split_host_port a = ShpErr err /\ h = a /\ p = def)
+  \/ (exists ds,
+        ((a = h ++ c_colon :: ds /\ nocolon h) \/ a = c_lbr :: h ++ c_rbr :: c_colon :: ds)
+        /\ nobr h /\ ds <> [] /\ forallb is_digit ds = true /\ dec_value ds <= 65535
+        /\ p = (if dec_value ds =? 0 then def else dec_value ds)).
+Proof.
+  unfold parse_dial_addr, eff_addr, try_split_host_port. cbv zeta.
+  set (a := if (0 <? length d)%nat then d else u).
+  destruct (split_host_port a) as [h0 ps|err] eqn:Es.
+  - rewrite parse_uint16_spec.
+    destruct (negb (is_nil ps) && forallb is_digit ps && (dec_value ps <=? 65535)) eqn:Ep; [|discriminate].
+    intro H. injection H as <- <-.
+    apply andb_true_iff in Ep as [Ep H3]. apply andb_true_iff in Ep as [H1 H2].
+    destruct (split_sound _ _ _ Es) as [Hh [_ [_ Hshape]]].
+    right. exists ps.
+    split; [exact Hshape|]. split; [exact Hh|].
+    split; [destruct ps; [discriminate|congruence]|].
+    split; [exact H2|]. split; [apply N.leb_le; exact H3|reflexivity].
+  - change (0 =? 0) with true. cbv iota.
+    intro H. injection H as <- <-. left. exists err. auto.
+Qed.
+
+(** ... and the only way to be refused is a port text that is not a 16 bit decimal *)
+Lemma parse_dial_addr_none u d def :
+  parse_dial_addr u d def = None <->
+  exists h ps, split_host_port (eff_addr u d) = ShpOk h ps /\ parse_uint16 ps = None.
+Proof.
+  unfold parse_dial_addr, eff_addr, try_split_host_port.
+  set (a := if (0 <? length d)%nat then d else u).
+  destruct (split_host_port a) as [h0 ps|err] eqn:Es.
+  - destruct (parse_uint16 ps) eqn:Ep; split.
+    + discriminate.
+    + intros [h [ps' [E1 E2]]]. injection E1 as <- <-. congruence.
+    + intros _. exists h0, ps. auto.
+    + reflexivity.
+  - split; [discriminate|]. intros [h [ps [E _]]]. discriminate.
+Qed.
+
+Lemma bad_port_name h d :
+  nocolon h -> nobr h -> nocolon d -> nobr d -> parse_uint16 d = None ->
+  try_split_host_port (h ++ c_colon :: d) = None.
+Proof.
+  intros. unfold try_split_host_port. rewrite split_name_port by assumption.
+  rewrite H3. reflexivity.
+Qed.
+
+Lemma bad_port_bracketed v d :
+  nobr v -> nocolon d -> nobr d -> parse_uint16 d = None ->
+  try_split_host_port (c_lbr :: v ++ c_rbr :: c_colon :: d) = None.
+Proof.
+  intros. unfold try_split_host_port. rewrite split_bracketed by assumption.
+  rewrite H2. reflexivity.
+Qed.
+
+(** ** The scheme switch *)
+
+Definition classify (scheme0 : str) : option transport :=
+  let '(scheme, http3) := apply_helper scheme0 in
+  if is_nil scheme || str_eqb scheme (lit "udp") then Some TUdp
+  else if str_eqb scheme (lit "tcp") then Some TTcp
+  else if str_eqb scheme (lit "tls") then Some TTls
+  else if str_eqb scheme (lit "https") then Some (if http3 then TH3 else THttps)
+  else if str_eqb scheme (lit "quic") || str_eqb scheme (lit "doq") then Some TQuic
+  else None.
+
+Definition default_port (tr : transport) : N :=
+  match tr with TUdp | TTcp => 53 | TTls | TQuic => 853 | THttps | TH3 => 443 end.
+
+Definition http_host_of (url_host : str) : str :=
+  if negb (has_prefix [c_lbr] url_host) && (2 <=? count_colon url_host)%nat
+  then [c_lbr] ++ url_host ++ [c_rbr] else url_host.
+
+Definition target_for (is_ip : str -> bool) (tr : transport) (url_host : str) (socks : bool)
+           (hp : option (str * N)) : option target :=
+  match hp with
+  | None => None
+  | Some (host, port) =>
+    if needs_ip tr socks && negb (is_ip host) then None
+    else Some (mk_target tr host port
+                 (if has_tls_name tr then Some (try_remove_port (trim_v6_brackets url_host)) else None)
+                 (match tr with THttps | TH3 => Some (http_host_of url_host) | _ => None end))
+  end.
+
+Lemma upstream_of_url_factored is_ip s0 uh dial socks :
+  upstream_of_url is_ip s0 uh dial socks =
+  match classify s0 with
+  | None => None
+  | Some tr => target_for is_ip tr uh socks (parse_dial_addr (trim_v6_brackets uh) dial (default_port tr))
+  end.
+Proof.
+  unfold upstream_of_url, classify, target_for, http_host_of.
+  destruct (apply_helper s0) as [scheme http3].
+  destruct (is_nil scheme || str_eqb scheme (lit "udp")).
+  { cbn [default_port needs_ip has_tls_name].
+    destruct (parse_dial_addr (trim_v6_brackets uh) dial 53) as [[h p]|]; [|reflexivity].
+    destruct (is_ip h); reflexivity. }
+  destruct (str_eqb scheme (lit "tcp")).
+  { cbn [default_port needs_ip has_tls_name].
+    destruct (parse_dial_addr (trim_v6_brackets uh) dial 53) as [[h p]|]; [|reflexivity].
+    destruct socks, (is_ip h); reflexivity. }
+  destruct (str_eqb scheme (lit "tls")).
+  { cbn [default_port needs_ip has_tls_name].
+    destruct (parse_dial_addr (trim_v6_brackets uh) dial 853) as [[h p]|]; [|reflexivity].
+    destruct socks, (is_ip h); reflexivity. }
+  destruct (str_eqb scheme (lit "https")).
+  { destruct http3; cbn [default_port needs_ip has_tls_name];
+      (destruct (parse_dial_addr (trim_v6_brackets uh) dial 443) as [[h p]|]; [|reflexivity]).
+    - reflexivity.
+    - destruct socks, (is_ip h); reflexivity. }
+  destruct (str_eqb scheme (lit "quic") || str_eqb scheme (lit "doq")); [|reflexivity].
+  cbn [default_port needs_ip has_tls_name].
+  destruct (parse_dial_addr (trim_v6_brackets uh) dial 853) as [[h p]|]; reflexivity.
+Qed.
+
+(** the table of the property: every scheme name is a URL scheme token in
+    lower case, and selects the stated transport and default port *)
+Definition scheme_char (c : N) : bool :=
+  is_alpha c || is_digit c || (c =? 43) || (c =? 45) || (c =? c_dot).
+Definition scheme_tok (s : str) : bool :=
+  match s with c :: t => is_alpha c && forallb scheme_char t | [] => false end.
+
+Definition row_ok (r : string * transport * N) : bool :=
+  let '(nm, tr, def) := r in
+  scheme_tok (lit nm) && str_eqb (map to_lower (lit nm)) (lit nm)
+  && match classify (lit nm) with Some tr' => transport_eqb tr tr' | None => false end
+  && (default_port tr =? def).
+
+Lemma scheme_table_ok : forallb row_ok scheme_table = true.
+Proof. vm_compute. reflexivity. Qed.
+
+Lemma str_eqb_eq a b : str_eqb a b = true -> a = b.
+Proof. apply list_eqb_spec. intros x y. apply N.eqb_eq. Qed.
+
+Lemma transport_eqb_eq a b : transport_eqb a b = true -> a = b.
+Proof. destruct a, b; (reflexivity || discriminate). Qed.
+
+Lemma scheme_row nm tr def :
+  In (nm, tr, def) scheme_table ->
+  scheme_tok (lit nm) = true /\ map to_lower (lit nm) = lit nm
+  /\ classify (lit nm) = Some tr /\ default_port tr = def.
+Proof.
+  intro Hin. pose proof scheme_table_ok as H. rewrite forallb_forall in H.
+  specialize (H _ Hin). unfold row_ok in H.
+  apply andb_true_iff in H as [H H4]. apply andb_true_iff in H as [H H3]. apply andb_true_iff in H as [H1 H2].
+  destruct (classify (lit nm)) as [tr'|]; [|discriminate].
+  apply transport_eqb_eq in H3. subst tr'. apply N.eqb_eq in H4. apply str_eqb_eq in H2. auto.
+Qed.
+
+(** ** net/url.Parse on the grammar *)
+
+Lemma scheme_char_safe c : scheme_char c = true -> url_safe c = true.
+Proof.
+  unfold scheme_char, url_safe. intro H.
+  destruct (is_alpha c); [reflexivity|]. destruct (is_digit c); [reflexivity|]. cbn [orb] in *.
+  cbn [existsb].
+  apply orb_true_iff in H as [H|H]; [apply orb_true_iff in H as [H|H]|];
+    rewrite H; rewrite ?orb_true_r; reflexivity.
+Qed.
+
+Lemma forallb_impl {A} (P Q : A -> bool) l :
+  (forall x, P x = true -> Q x = true) -> forallb P l = true -> forallb Q l = true.
+Proof.
+  intro H. induction l as [|x l IH]; cbn [forallb]; [reflexivity|].
+  intro E. apply andb_true_iff in E as [E1 E2]. rewrite (H _ E1), (IH E2). reflexivity.
+Qed.
+
+Lemma scheme_tok_safe s : scheme_tok s = true -> forallb url_safe s = true.
+Proof.
+  destruct s as [|c t]; [discriminate|]. cbn [scheme_tok forallb]. intro H.
+  apply andb_true_iff in H as [H1 H2].
+  rewrite (forallb_impl _ _ _ scheme_char_safe H2), andb_true_r.
+  unfold url_safe. rewrite H1. reflexivity.
+Qed.
+
+Lemma name_char_safe c : name_char c = true -> url_safe c = true.
+Proof. unfold name_char. intro H. repeat (apply andb_true_iff in H as [H _]). exact H. Qed.
+
+Lemma inner_char_safe c : inner_char c = true -> url_safe c = true.
+Proof.
+  unfold inner_char. intro H. apply orb_true_iff in H as [H|H]; [apply name_char_safe, H|].
+  apply N.eqb_eq in H. subst. reflexivity.
+Qed.
+
+Lemma digit_safe c : is_digit c = true -> url_safe c = true.
+Proof. unfold url_safe. intros ->. rewrite orb_true_r. reflexivity. Qed.
+
+Lemma get_scheme_tail t r :
+  forallb scheme_char t = true -> get_scheme false (t ++ c_colon :: r) = GsAt (length t).
+Proof.
+  induction t as [|c t IH]; cbn [forallb app length]; intro H.
+  - reflexivity.
+  - apply andb_true_iff in H as [Hc Ht]. cbn [get_scheme].
+    destruct (is_alpha c) eqn:Ea; [rewrite (IH Ht); reflexivity|].
+    unfold scheme_char in Hc. rewrite Ea in Hc. cbn [orb] in Hc. rewrite Hc.
+    rewrite (IH Ht). reflexivity.
+Qed.
+
+Lemma get_scheme_tok s r :
+  scheme_tok s = true -> get_scheme true (s ++ c_colon :: r) = GsAt (length s).
+Proof.
+  destruct s as [|c t]; [discriminate|]. cbn [scheme_tok app length get_scheme]. intro H.
+  apply andb_true_iff in H as [Hc Ht]. rewrite Hc, (get_scheme_tail t r Ht). reflexivity.
+Qed.
+
+Lemma take_until_app c a p :
+  has c a = false -> is_nil p || has_prefix [c] p = true -> take_until c (a ++ p) = a.
+Proof.
+  intros Ha Hp. induction a as [|x a IH]; cbn [app take_until].
+  - destruct p as [|y p]; [reflexivity|]. cbn [is_nil orb has_prefix] in Hp.
+    rewrite andb_true_r in Hp. cbn [take_until]. rewrite N.eqb_sym, Hp. reflexivity.
+  - rewrite has_cons in Ha. apply orb_false_iff in Ha as [Hx Ha].
+    rewrite N.eqb_sym, Hx, (IH Ha). reflexivity.
+Qed.
+
+Lemma has_prefix_app p b : has_prefix p (p ++ b) = true.
+Proof. induction p as [|x p IH]; cbn [has_prefix app]; [reflexivity|]. rewrite N.eqb_refl, IH. reflexivity. Qed.
+
+Lemma contains_mid p a b : contains p (a ++ p ++ b) = true.
+Proof.
+  induction a as [|x a IH]; cbn [app].
+  - destruct (p ++ b) eqn:E; cbn [contains]; rewrite <- E, has_prefix_app; reflexivity.
+  - cbn [contains]. rewrite IH, orb_true_r. reflexivity.
+Qed.
+
+Lemma render_port_safe p : wf_port_opt p = true -> forallb url_safe (render_port p) = true.
+Proof.
+  destruct p as [d|]; cbn [wf_port_opt render_port forallb]; intro H; [|reflexivity].
+  destruct (wf_port_facts _ H) as [_ [Hd _]].
+  rewrite (forallb_impl _ _ _ digit_safe Hd). reflexivity.
+Qed.
+
+Lemma render_port_noslash p : wf_port_opt p = true -> has c_slash (render_port p) = false.
+Proof.
+  destruct p as [d|]; cbn [wf_port_opt render_port]; intro H; [|reflexivity].
+  destruct (wf_port_facts _ H) as [_ [Hd _]].
+  rewrite has_cons. replace (c_slash =? c_colon) with false by reflexivity. cbn [orb].
+  eapply class_excludes; [|exact Hd]. reflexivity.
+Qed.
+
+Lemma render_ep_safe e :
+  wf_ep e = true -> forallb url_safe (render_ep e) = true /\ has c_slash (render_ep e) = false.
+Proof.
+  destruct e as [h p|v br p]; cbn [wf_ep render_ep]; intro H.
+  - apply andb_true_iff in H as [H Hp]. apply andb_true_iff in H as [_ Hh].
+    rewrite forallb_app, has_app, (forallb_impl _ _ _ name_char_safe Hh), (render_port_safe _ Hp),
+      (name_noslash _ Hh), (render_port_noslash _ Hp). auto.
+  - apply andb_true_iff in H as [H _]. apply andb_true_iff in H as [H Hp]. apply andb_true_iff in H as [Hv _].
+    pose proof (forallb_impl _ _ _ inner_char_safe Hv) as Hs.
+    destruct br; rewrite ?forallb_app, ?has_app; cbn [forallb has existsb];
+      rewrite ?forallb_app, ?has_app, Hs, (render_port_safe _ Hp), (inner_noslash _ Hv), (render_port_noslash _ Hp);
+      cbn [forallb has existsb]; auto.
+Qed.
+
+Lemma valid_port_render p : wf_port_opt p = true -> valid_optional_port (render_port p) = true.
+Proof.
+  destruct p as [d|]; cbn [wf_port_opt render_port valid_optional_port]; intro H; [|reflexivity].
+  destruct (wf_port_facts _ H) as [_ [Hd _]]. rewrite N.eqb_refl, Hd. reflexivity.
+Qed.
+
+Lemma render_port_no c p :
+  is_digit c = false -> c <> c_colon -> wf_port_opt p = true -> has c (render_port p) = false.
+Proof.
+  intros Hc Hn. destruct p as [d|]; cbn [wf_port_opt render_port]; intro H; [|reflexivity].
+  destruct (wf_port_facts _ H) as [_ [Hd _]]. rewrite has_cons.
+  destruct (N.eqb_spec c c_colon); [contradiction|]. cbn [orb].
+  eapply class_excludes; [exact Hc|exact Hd].
+Qed.
+
+(** parseHost accepts every well-formed endpoint whose bare IPv6 form ends in digits *)
+Lemma parse_host_ep e :
+  wf_ep e = true -> url_ok_ep e = true -> parse_host (render_ep e) = Some (render_ep e).
+Proof.
+  destruct e as [h p|v br p]; cbn [wf_ep url_ok_ep render_ep]; intros H Hu; unfold parse_host.
+  - apply andb_true_iff in H as [H Hp]. apply andb_true_iff in H as [Hne Hh].
+    destruct h as [|x h]; [discriminate|].
+    pose proof (name_nobr _ Hh) as [Hl _]. pose proof (name_nocolon _ Hh) as Hc.
+    assert (E0 : has_prefix [c_lbr] ((x :: h) ++ render_port p) = false).
+    { cbn [app has_prefix]. rewrite has_cons in Hl. apply orb_false_iff in Hl as [Hl _].
+      rewrite Hl. reflexivity. }
+    rewrite E0. destruct p as [d|]; cbn [render_port wf_port_opt] in *.
+    + destruct (wf_port_facts _ Hp) as [_ [Hd _]].
+      rewrite (last_index_hit c_colon (x :: h) d (digits_nocolon _ Hd)), skipn_len_app.
+      cbn [valid_optional_port]. rewrite N.eqb_refl, Hd. reflexivity.
+    + rewrite app_nil_r. apply last_index_none in Hc. rewrite Hc. reflexivity.
+  - apply andb_true_iff in H as [H Hbr]. apply andb_true_iff in H as [H Hp]. apply andb_true_iff in H as [Hv Hc].
+    pose proof (inner_nobr _ Hv) as [Hl Hr].
+    destruct br.
+    + cbn [app has_prefix]. rewrite N.eqb_refl. cbn [andb].
+      assert (Hrp : has c_rbr (render_port p) = false)
+        by (apply render_port_no; [reflexivity|discriminate|exact Hp]).
+      change (c_lbr :: v ++ [c_rbr] ++ render_port p) with ((c_lbr :: v) ++ c_rbr :: render_port p).
+      rewrite <- app_assoc. cbn [app].
+      change (c_lbr :: v ++ c_rbr :: render_port p) with ((c_lbr :: v) ++ c_rbr :: render_port p).
+      rewrite (last_index_hit c_rbr (c_lbr :: v) (render_port p) Hrp), skipn_S_len_app.
+      rewrite (valid_port_render _ Hp). reflexivity.
+    + destruct p as [d|]; [discriminate|]. cbn [render_port]. rewrite app_nil_r.
+      assert (E0 : has_prefix [c_lbr] v = false).
+      { destruct v as [|x v]; [reflexivity|]. cbn [has_prefix]. rewrite has_cons in Hl.
+        apply orb_false_iff in Hl as [Hl _]. rewrite Hl. reflexivity. }
+      rewrite E0. unfold after_last_colon in Hu.
+      destruct (last_index_byte c_colon v) as [i|] eqn:Ei; [|reflexivity].
+      destruct (last_index_sound _ _ _ Ei) as [Es [_ Hlen]].
+      assert (Esk : skipn i v = c_colon :: skipn (S i) v).
+      { rewrite Es at 1. rewrite <- Hlen at 1. apply skipn_len_app. }
+      rewrite Esk. cbn [valid_optional_port]. rewrite N.eqb_refl, Hu. reflexivity.
+Qed.
+
+Lemma url_parse_rendered sch auth path :
+  scheme_tok sch = true -> forallb url_safe auth = true -> has c_slash auth = false ->
+  wf_path path = true -> parse_host auth = Some auth ->
+  url_parse (sch ++ lit "://" ++ auth ++ path) = UrlOk (map to_lower sch) auth.
+Proof.
+  intros Hs Ha Hns Hp Hh. unfold wf_path in Hp. apply andb_true_iff in Hp as [Hps Hpp].
+  unfold url_parse.
+  change (lit "://") with [c_colon; c_slash; c_slash]. cbn [app].
+  assert (Esafe : forallb url_safe (sch ++ c_colon :: c_slash :: c_slash :: auth ++ path) = true).
+  { rewrite forallb_app, (scheme_tok_safe _ Hs). cbn [forallb andb].
+    change (url_safe c_colon) with true. change (url_safe c_slash) with true. cbn [andb].
+    rewrite forallb_app, Ha, Hps. reflexivity. }
+  rewrite Esafe. cbn [negb].
+  rewrite (get_scheme_tok sch _ Hs).
+  rewrite firstn_len_app, skipn_S_len_app.
+  change (has_prefix [c_slash] (c_slash :: c_slash :: auth ++ path)) with true. cbn [negb].
+  assert (En : is_nil (map to_lower sch) = false) by (destruct sch; [discriminate|reflexivity]).
+  rewrite En. cbn [negb orb andb].
+  change (has_prefix [c_slash; c_slash] (c_slash :: c_slash :: auth ++ path)) with true.
+  change (skipn 2 (c_slash :: c_slash :: auth ++ path)) with (auth ++ path).
+  rewrite (take_until_app c_slash auth path Hns Hpp), Hh. reflexivity.
+Qed.
+
+(** ** NewUpstream on the grammar *)
+
+Definition expected_target (is_ip : str -> bool) (tr : transport) (def : N) (e : ep) (dial : option ep)
+           (socks : bool) : option target :=
+  let eff := eff_ep e dial in
+  if needs_ip tr socks && negb (is_ip (ep_host eff)) then None
+  else Some (mk_target tr (ep_host eff) (port_or (ep_port eff) def)
+               (if has_tls_name tr then Some (ep_host e) else None)
+               (match tr with THttps | TH3 => Some (http_host_of (render_ep e)) | _ => None end)).
+
+Lemma upstream_of_rendered is_ip nm tr def e path dial socks :
+  In (nm, tr, def) scheme_table ->
+  wf_ep e = true -> url_ok_ep e = true -> wf_path path = true -> dial_wf dial = true ->
+  match url_parse (lit nm ++ lit "://" ++ render_ep e ++ path) with
+  | UrlOk s h => upstream_of_url is_ip s h (render_dial dial) socks
+  | _ => None
+  end = expected_target is_ip tr def e dial socks.
+Proof.
+  intros Hin He Hu Hp Hd.
+  destruct (scheme_row _ _ _ Hin) as [Htok [Hlow [Hcls Hdef]]].
+  destruct (render_ep_safe e He) as [Hsafe Hnoslash].
+  rewrite (url_parse_rendered (lit nm) (render_ep e) path Htok Hsafe Hnoslash Hp (parse_host_ep e He Hu)).
+  rewrite Hlow, upstream_of_url_factored, Hcls, Hdef.
+  rewrite (parse_dial_ep e dial def He Hd).
+  unfold target_for, expected_target. rewrite (try_remove_trim_ep e He). reflexivity.
+Qed.
+
+Theorem dial_target is_ip nm tr def e path dial socks :
+  In (nm, tr, def) scheme_table ->
+  wf_ep e = true -> url_ok_ep e = true -> wf_path path = true -> dial_wf dial = true ->
+  new_upstream is_ip (lit nm ++ lit "://" ++ render_ep e ++ path) (render_dial dial) socks
+  = expected_target is_ip tr def e dial socks.
+Proof.
+  intros Hin He Hu Hp Hd. unfold new_upstream.
+  replace (contains (lit "://") (lit nm ++ lit "://" ++ render_ep e ++ path)) with true
+    by (symmetry; apply contains_mid).
+  apply upstream_of_rendered; assumption.
+Qed.
+
+(** no scheme written: "udp://" is assumed *)
+Theorem dial_target_no_scheme is_ip e path dial socks :
+  wf_ep e = true -> url_ok_ep e = true -> wf_path path = true -> dial_wf dial = true ->
+  contains (lit "://") (render_ep e ++ path) = false ->
+  new_upstream is_ip (render_ep e ++ path) (render_dial dial) socks
+  = expected_target is_ip TUdp 53 e dial socks.
+Proof.
+  intros He Hu Hp Hd Hc. unfold new_upstream. rewrite Hc.
+  change (lit "udp://" ++ render_ep e ++ path) with (lit "udp" ++ lit "://" ++ render_ep e ++ path).
+  apply (upstream_of_rendered is_ip "udp" TUdp 53); try assumption.
+  cbn. auto.
+Qed.
+
+(** bare IPv6 whose last group is not decimal: refused at creation (by net/url) *)
+Theorem bare_v6_hex_tail_refused is_ip sch v path dial socks :
+  scheme_tok sch = true -> forallb inner_char v = true -> has c_colon v = true ->
+  wf_path path = true ->
+  forallb is_digit (after_last_colon v) = false ->
+  new_upstream is_ip (sch ++ lit "://" ++ v ++ path) dial socks = None.
+Proof.
+  intros Hs Hv Hc Hp Hd. unfold wf_path in Hp. apply andb_true_iff in Hp as [Hps Hpp].
+  unfold new_upstream.
+  replace (contains (lit "://") (sch ++ lit "://" ++ v ++ path)) with true by (symmetry; apply contains_mid).
+  unfold url_parse.
+  change (lit "://") with [c_colon; c_slash; c_slash]. cbn [app].
+  assert (Esafe : forallb url_safe (sch ++ c_colon :: c_slash :: c_slash :: v ++ path) = true).
+  { rewrite forallb_app, (scheme_tok_safe _ Hs). cbn [forallb andb].
+    change (url_safe c_colon) with true. change (url_safe c_slash) with true. cbn [andb].
+    rewrite forallb_app, (forallb_impl _ _ _ inner_char_safe Hv), Hps. reflexivity. }
+  rewrite Esafe. cbn [negb]. rewrite (get_scheme_tok sch _ Hs).
+  rewrite firstn_len_app, skipn_S_len_app.
+  change (has_prefix [c_slash] (c_slash :: c_slash :: v ++ path)) with true. cbn [negb].
+  assert (En : is_nil (map to_lower sch) = false) by (destruct sch; [discriminate|reflexivity]).
+  rewrite En. cbn [negb orb andb].
+  change (has_prefix [c_slash; c_slash] (c_slash :: c_slash :: v ++ path)) with true.
+  change (skipn 2 (c_slash :: c_slash :: v ++ path)) with (v ++ path).
+  rewrite (take_until_app c_slash v path (inner_noslash _ Hv) Hpp).
+  unfold parse_host.
+  assert (E0 : has_prefix [c_lbr] v = false).
+  { pose proof (inner_nobr _ Hv) as [Hl _]. destruct v as [|x v]; [reflexivity|]. cbn [has_prefix].
+    rewrite has_cons in Hl. apply orb_false_iff in Hl as [Hl _]. rewrite Hl. reflexivity. }
+  rewrite E0. unfold after_last_colon in Hd.
+  destruct (last_index_byte c_colon v) as [i|] eqn:Ei.
+  - destruct (last_index_sound _ _ _ Ei) as [Es [_ Hlen]].
+    assert (Esk : skipn i v = c_colon :: skipn (S i) v).
+    { rewrite Es at 1. rewrite <- Hlen at 1. apply skipn_len_app. }
+    rewrite Esk. cbn [valid_optional_port]. rewrite N.eqb_refl, Hd. reflexivity.
+  - apply last_index_none in Ei. congruence.
+Qed.
+
+(** an unknown scheme is refused *)
+Theorem unknown_scheme_refused is_ip s uh dial socks :
+  classify s = None -> upstream_of_url is_ip s uh dial socks = None.
+Proof. intro H. rewrite upstream_of_url_factored, H. reflexivity. Qed.
+
+(** a port text that is not a decimal 0..65535 is refused, whatever the scheme:
+    as URL host text "h:d" / "[v]:d" without dial_addr ... *)
+Theorem bad_url_port_refused is_ip s h d br socks :
+  nobr h -> (br = false -> nocolon h) -> nocolon d -> nobr d -> parse_uint16 d = None ->
+  let host := (if br then c_lbr :: h ++ [c_rbr] else h) ++ c_colon :: d in
+  upstream_of_url is_ip s host [] socks = None.
+Proof.
+  intros Hh Hc Hd Hdb Hp host. rewrite upstream_of_url_factored.
+  destruct (classify s) as [tr|]; [|reflexivity].
+  assert (Et : try_split_host_port (trim_v6_brackets host) = None).
+  { subst host. destruct br.
+    - rewrite trim_not_closed.
+      + cbn [app]. rewrite <- app_assoc. cbn [app]. apply bad_port_bracketed; assumption.
+      + apply last_not_rbr; [discriminate|]. destruct Hdb as [_ Hdr]. rewrite has_cons, Hdr. reflexivity.
+    - rewrite trim_not_open; [apply bad_port_name; auto|].
+      destruct h as [|x h]; [reflexivity|]. apply nth0_no; [apply Hh|discriminate]. }
+  unfold parse_dial_addr. cbn [length Nat.ltb Nat.leb]. rewrite Et. reflexivity.
+Qed.
+
+(** ... and as dial_addr *)
+Theorem bad_dial_port_refused is_ip s uh h d br socks :
+  nobr h -> (br = false -> nocolon h) -> nocolon d -> nobr d -> parse_uint16 d = None ->
+  let dial := (if br then c_lbr :: h ++ [c_rbr] else h) ++ c_colon :: d in
+  upstream_of_url is_ip s uh dial socks = None.
+Proof.
+  intros Hh Hc Hd Hdb Hp dial. rewrite upstream_of_url_factored.
+  destruct (classify s) as [tr|]; [|reflexivity].
+  assert (Et : try_split_host_port dial = None).
+  { subst dial. destruct br.
+    - cbn [app]. rewrite <- app_assoc. cbn [app]. apply bad_port_bracketed; assumption.
+    - apply bad_port_name; auto. }
+  unfold parse_dial_addr.
+  assert (El : (0 <? length dial)%nat = true).
+  { subst dial. rewrite app_length. cbn [length]. apply Nat.ltb_lt. lia. }
+  rewrite El, Et. reflexivity.
+Qed.
